@@ -73,14 +73,17 @@ func checkStructure(m *model, c Case, step int) error {
 		if fs.Real != want {
 			return fmt.Errorf("step %d FIB hash table holds %d real entries, the prefixes holding routes require %d", step, fs.Real, want)
 		}
-		virts := map[string]bool{}
+		// (which prefixes get a virtual entry is the table's policy; see harness/fib/c08_test.go)
+		all := map[string]bool{}
 		for n := range prefixesWithRoutes {
-			if cs := comps(n); len(cs) >= c.M {
-				virts[join(cs[:c.M])] = true
+			for _, p := range prefixes(n) {
+				if p != "/" {
+					all[p] = true
+				}
 			}
 		}
-		if fs.Virt != len(virts) || fs.VirtNames != len(virts) {
-			return fmt.Errorf("step %d FIB hash table holds %d virtual entries (%d name sets), live prefixes require %d", step, fs.Virt, fs.VirtNames, len(virts))
+		if fs.Virt > len(all) || fs.VirtNames > len(all) {
+			return fmt.Errorf("step %d FIB hash table holds %d virtual entries (%d name sets), the live prefixes have %d prefixes in all", step, fs.Virt, fs.VirtNames, len(all))
 		}
 	}
 	return nil
